@@ -4,6 +4,7 @@ import A2Verif.Lemmas.C06Ident
 import A2Verif.Lemmas.C06Cpm
 import A2Verif.Lemmas.C06ExFat
 import A2Verif.Lemmas.C06ExProdos
+import A2Verif.Lemmas.C06ProdosOpen
 import A2Verif.Model.Read.ProdosT
 import A2Verif.Lemmas.FsPascalInv
 import A2Verif.Model.Read.Dos3x
@@ -535,6 +536,20 @@ theorem queries_after_reload {d : Disk} {b : Array Nat} (h : Coh d) (hb : d.bitm
   rw [e0]
   exact (h2.out d b h hb _ t1).2.1
 
+/-- C06 (ProDOS), clause 6 **after the reloaded object has re-opened its buffer** (`…_partial`; volumes below 4096
+blocks, i.e. one bitmap block).  `openTwin d b` is the reloaded object after its first bitmap access
+(`reopen_restores_buffer`).  From there on **every** history of operations — `put`, `delete`, `rename`, `lock`, `unlock`,
+`retype`, `mkdir` and the queries, successful or not — answers exactly as on the object that was never saved, and the
+final objects save to the same bytes: that the bitmap block of the image is stale in one object and current in the
+other is invisible.  Missing for the full clause: the steps of the reloaded object *before* its first bitmap access
+(see `reload_observes_same_partial`). -/
+theorem continuation_after_reopen_partial {d : Disk} {b : Array Nat} (h : Coh d) (hb : d.bitmap = some b) (ht : d.total < 4096)
+    (ops : List Reload.Prodos.Op) :
+    (Reload.Prodos.exec (openTwin d b) ops).1 = (Reload.Prodos.exec d ops).1 ∧
+    save (Reload.Prodos.exec (openTwin d b) ops).2 = save (Reload.Prodos.exec d ops).2 := by
+  obtain ⟨e, s⟩ := exec_osim ops (osim_openTwin h hb ht)
+  exact ⟨e, save_osim s⟩
+
 /-! ### non-vacuity and the negative witness -/
 
 open A2Verif.Reload.Prodos (blank exD cohB coh_of_cohB exD_coh freeOf reloadForgetful reloadForgetful_eq exD_free exD_closed)
@@ -548,6 +563,16 @@ example : (statFree (reload exD)).1 = (statFree exD).1 := by
   obtain ⟨bytes, hs, hr⟩ := save_ok exD_coh
   rw [hr]
   exact (reload_observes_same_partial exD_coh exD_closed hs).2.2.1
+
+/-- instance of `continuation_after_reopen_partial` on the example object: a `mkdir`, a `lock` of a missing file and a
+`stat` answer alike -/
+example : (Reload.Prodos.exec (openTwin exD ((exD.bitmap).getD #[])) [.mkdir [47, 86, 47, 68] [0, 0, 0, 0], .lock [88], .statFree]).1 =
+    (Reload.Prodos.exec exD [.mkdir [47, 86, 47, 68] [0, 0, 0, 0], .lock [88], .statFree]).1 := by
+  have hb : exD.bitmap = some ((exD.bitmap).getD #[]) := by
+    cases h : exD.bitmap with
+    | none => exact absurd h Reload.Prodos.exD_open
+    | some b => rfl
+  exact (continuation_after_reopen_partial exD_coh hb Reload.Prodos.exD_small _).1
 
 end Prodos
 
